@@ -14,13 +14,13 @@
 namespace c10 {
 volatile int* g_step = nullptr;
 #define X(n) std::string run_##n(const std::vector<std::string>& w);
-X(1) X(2) X(3) X(4) X(5) X(8) X(10) X(255) X(256) X(300)
+X(1) X(2) X(3) X(4) X(5) X(8) X(10) X(30) X(254) X(255) X(256) X(300)
 #undef X
 }
 
 namespace {
 
-#define CAPS(X) X(1) X(2) X(3) X(4) X(5) X(8) X(10) X(255) X(256) X(300)
+#define CAPS(X) X(1) X(2) X(3) X(4) X(5) X(8) X(10) X(30) X(254) X(255) X(256) X(300)
 
 std::string run_case(const std::vector<std::string>& w)
 {
